@@ -20,7 +20,7 @@ from common import Broken, Violation
 from props import c15
 
 MANIFEST = {
-    "text": "26 theorems about a hand-written Gallina model of stix2/versioning.py over ALL clock readings (Z microseconds), all "
+    "text": "26 theorems (Props/C05.v) about a hand-written Gallina model of stix2/versioning.py over ALL clock readings (Z microseconds), all "
             "objects/dicts (association lists), all change sets, all operation chains and an ARBITRARY class constructor "
             "(any acceptance test, any per-property cleaning): the serialized modified time of a new version is strictly later "
             "than the original's at the spec version's precision whatever the clock reads (fudge_strict_20/21, nv_strict), no "
@@ -32,12 +32,22 @@ MANIFEST = {
             "properties, non-later supplied modified times and revoked objects are refused (nv_unmodifiable, nv_sco_locked, "
             "supplied_modified_strict, revoked_final, revoked_chain_ends), ser_value is what the C15-written text denotes "
             "(ser_is_serialized_text, nv_strict_text), and the generated tables agree with the frozen specification tables.",
-    "design_ref": "DESIGN.md 6/C05, Appendix A.1",
-    "note": "Trusted: Coq kernel + vm_compute; translators/tr_versioning.py (live tables of /repo); the hand model is tied to "
-            "/repo by a correspondence run on every check with a scripted clock substituted from the worker process (no repo "
-            "hook); class constructors are assumed to accept the (legal) change sets unchanged apart from cleaning `modified`; "
-            "'original untouched' is observed by the harness only (C13 proves it). No axioms.",
-    "technique": "Coq proof over a hand-written executable model + generated tables + per-run correspondence with the implementation",
+    "design_ref": "DESIGN.md 6/C05, Appendix A.1; design_notes/C15-C05.md",
+    "note": "Plus 13 source-text obligations (Props/C05Src.v) on a record read from the ast of stix2/versioning.py on every run "
+            "(translators/tr_versioning_src.py, fail-closed): the comparisons and constants of _fudge_modified as written give "
+            "strictly later serialized times, the supplied-modified test as written refuses every non-later time, new_version "
+            "tests revoked / unmodifiable and SCO-locked properties in the order the refusal theorems rely on, the timestamp "
+            "arguments, revoke and _check_versionable_object are the ones the model mirrors, and the model's fudge computes the "
+            "arithmetic of the text; the real _fudge_modified is probed at run time against the recorded constants. "
+            "Trusted: Coq kernel + vm_compute; translators/tr_versioning.py (live tables of /repo) and tr_versioning_src.py; the "
+            "hand model is tied to /repo by a correspondence run on every check with a scripted clock substituted from the worker "
+            "process (no repo hook): quick 675 chains / ~6 400 operations, thorough 3 375 chains / ~35 000 operations, on objects "
+            "and dicts of all 37 versionable types of both spec versions. The class constructor is abstract in the theorems "
+            "(arbitrary acceptance test and cleaning); the correspondence uses legal, already clean change sets. "
+            "Correspondence/oracle-only: 'original untouched' (observed on every operation; C13 proves it). Assumed: keyword "
+            "arguments and dict keys distinct; spec versions 2.0 and 2.1; for dict chains no change set rewrites spec_version "
+            "(shown necessary); timestamps within years 1..9999. No axioms.",
+    "technique": "Coq proof over a hand-written executable model + generated tables + source-text record + per-run correspondence with the implementation",
 }
 
 HEADER = """From Coq Require Import ZArith List String.
